@@ -477,7 +477,7 @@ func runScenario(sc scenario, e *env) (res result) {
 	settled := rig.Log.Wait(1500*time.Millisecond, func(evs []gaterig.Ev) bool {
 		acc := gaterig.Count(evs, "Acc", -1)
 		for i := 0; i < acc; i++ {
-			if gaterig.Count(evs, "SockClose", i) == 0 {
+			if gaterig.Count(evs, "SockClose", i)+gaterig.Count(evs, "SockCloseC", i) == 0 {
 				return false
 			}
 		}
@@ -604,7 +604,7 @@ func genScenarios(tier string, r *rng.R) []scenario {
 	// several connections in different phases
 	n := 60
 	if tier == "thorough" {
-		n = 600
+		n = 2500
 	}
 	for k := 0; k < n; k++ {
 		pp := r.Chance(1, 5)
@@ -619,8 +619,9 @@ func genScenarios(tier string, r *rng.R) []scenario {
 			as := aftersOf(ph)
 			a := as[r.Intn(len(as))]
 			van := r.Chance(1, 6) && a != "send" && a != "hdr" && ph != "pphdr"
-			if a == "stay" && !van {
-				stay = true
+			gated := ph == "upstream" || ph == "writeblocked" || ph == "tundial"
+			if a == "stay" && (!van || gated) {
+				stay = true // this connection keeps Shutdown waiting (a held step stays held even if the client left)
 			}
 			sc.Conns = append(sc.Conns, connPlan{Phase: ph, After: a, Vanish: van})
 		}
@@ -656,7 +657,7 @@ func coqBool(b bool) string {
 // coqLabel renders one event as a label of Shutdown.v ("" = not a label of the LTS).
 func coqLabel(e gaterig.Ev) string {
 	switch e.K {
-	case "Acc", "Addr", "FirstByte", "Fwd", "RTLeave", "WrCall", "SockClose", "ClientGone":
+	case "Acc", "Addr", "FirstByte", "Fwd", "RTLeave", "WrCall", "SockClose", "SockCloseC", "ClientGone":
 		return fmt.Sprintf("%s %d", e.K, e.Conn)
 	case "ReqRead":
 		k := map[string]string{"err": "RErr", "ok": "ROk", "connect": "RConnect"}[e.S]
